@@ -33,7 +33,7 @@ K1 = "K1-exp-blend-nonmonotone-exponent-below-0.132954"
 
 
 def plan(tier, seed):
-    n = 8000 if tier == "quick" else 400000
+    n = 16000 if tier == "quick" else 1200000
     return [{"kind": "random", "start": p * (n // NSHARDS), "count": n // NSHARDS} for p in range(NSHARDS)]
 
 
